@@ -98,6 +98,8 @@ impl Once {
 
     /// Returns `true` if some [`Once::call_once()`] call has completed successfully.
     pub fn is_completed(&self) -> bool {
+        // Observing the state of a `Once` is a visible operation: other tasks must be able to run first
+        shuttle_engine::runtime::thread::switch();
         ExecutionState::with(|state| {
             let init = match self.get_state(state) {
                 Some(init) => init,
@@ -160,6 +162,8 @@ impl Once {
             f(&OnceState(is_poisoned));
 
             *flag = true;
+            // Publishing completion is visible to `is_completed` and to later `call_once` callers
+            shuttle_engine::runtime::thread::switch();
             // We were the thread that won the race, so remember our current clock to establish
             // causality with future threads that try (and fail) to run `call_once`. The threads
             // that were racing with us will get causality through acquiring the `Mutex`.
